@@ -99,6 +99,36 @@ BUILT = {
         "Trusted: mc/models/protocol.py. Resets and cleanups are compared as unordered blocks; after a failing end verdict later ones may or may not be asked.",
         "DESIGN.md §4 C20",
     ),
+    "C15": (
+        "deviation-bounded exhaustive enumeration of tables x encoding-feature switches written by an independent ODF producer, plus exhaustive container-fault enumeration",
+        "All small tables over a text alphabet (blanks, tabs, line breaks, XML-special and non-ASCII characters) and 10 structured tables (runs, duplicate rows, ragged and empty rows, up to 6x8) are written as real .ods files with every subset of up to 2 (thorough: all) of 10 optional encoding features (column / row runs, text:s variants, paragraphs, spans, empty text:p, UTF-16, office filler), 1-3 sheets; rowio.ods_rows and cutplace.rows must return the logical table; not-a-zip, missing content.xml, content.xml cut at every tag boundary, malformed repeat counts, missing sheets and truncation at every 64th (thorough: every) byte must give DataFormatError.",
+        "Trusted: mc/models/odf.py (producer, self-checked on every file by an independent decoder). One recorded known finding (row runs are not expanded).",
+        "DESIGN.md §4 C15",
+    ),
+    "C16": (
+        "bounded exhaustive enumeration of generated workbook cells (xlsxwriter as independent producer) against the documented rendering rules",
+        "Strings, integers at every power-of-ten and power-of-two boundary up to 2^53, a float grid, booleans, dates (quick: boundary days of 40 years; thorough: every date 1900-03-01..9999-12-31), times (thorough: every second of a day), date+time boundaries, 1-3 sheets x requested sheet 1-4 through excel_rows and the Sheet property, and the XlsxRowWriter round trip over string tables.",
+        "Trusted: xlsxwriter as producer and the rendering rules of the statement; numbers are compared after rounding to the 16 significant digits an xlsx file stores.",
+        "DESIGN.md §4 C16",
+    ),
+    "C17": (
+        "bounded exhaustive enumeration with a differential oracle across storage formats (3 CID storages x 3 data formats)",
+        "(a) every generated CID is stored as CSV, ODS (two encodings) and XLSX and must load into an equal definition snapshot; (b) every generated table (accepted cells, every rejected cell of every column, empty cells, duplicate keys) is stored as delimited text, ODS and XLSX (sheet 1 or 2) and read under CIDs differing only in Format, each CID itself stored in the three ways: all 9 event lists must be equal.",
+        "Differential oracle, no hand-written expectations. Tables keep their last column non-empty (xlsx does not store empty strings).",
+        "DESIGN.md §4 C17",
+    ),
+    "C18": (
+        "full product enumeration of CID kind x ordered data-file lists x --until x argument faults through applications.main, differential oracle via the API on a fresh CID",
+        "4 CID kinds x all 259 ordered lists of 0..3 data files over 6 kinds x 6 --until values plus 8 argument faults, in-process; a subset as real subprocesses; expected exit code 2 / 3 / 1 / 0 where 'rejected' is decided by cutplace.rows on a freshly loaded CID, so independence from siblings and order follows.",
+        "Trusted: the exit-code table of the statement; files after the first unreadable one are not judged.",
+        "DESIGN.md §4 C18",
+    ),
+    "C19": (
+        "full enumeration of integer range pairs over the type-boundary set x 4 dialects plus generated multi-column CIDs; generated DDL parsed back and compared with the CID",
+        "All pairs lo <= hi over 49 boundary values (around 2^7, 2^8, 2^15, 2^16, 2^31, 2^32, 2^63, both signs) x 4 dialects, length-derived and default ranges, and 1-6 column CIDs over 40 typed declarations with keyword names: column count and order, keyword quoting against the dialect's own list, NOT NULL, integer capacity under the dialect's semantics, decimal digits and text lengths.",
+        "Trusted: capacity table per dialect (ANSI / PL/SQL int never alarm). One recorded known finding (Transact-SQL tinyint for negative lower limits).",
+        "DESIGN.md §4 C19",
+    ),
 }
 
 NOT_YET = "check not built yet in this session; the design (DESIGN.md §4) decides it by bounded exhaustive exploration"
